@@ -21,6 +21,7 @@ EL_SMALL = 1
 R0 = Register("R0", RegisterDirection.Read)
 RW1 = Register("RW1", RegisterDirection.Both)
 W2 = Register("W2", RegisterDirection.Write)
+W3 = Register("W3", RegisterDirection.Write)      # written on its own only (events w3_*), never part of the batch
 READ_REGS = [R0, RW1]
 R3 = Register("R3", RegisterDirection.Read)      # read on its own only (events r3_*), never part of the batch
 WRITE_REGS = [RW1, W2]
@@ -112,6 +113,8 @@ EV_QUICK = (
 )
 # C24, second exploration: single-register writes (the other registers are not re-commanded) next to the batch cycle
 EV_SINGLE = ("wb_new_ok", "wb_new_fail", "wb_same_ok", "wb_new_one_ok", "w_new_ok", "w_new_ok_pf", "w_same_ok", "w_new_fail", "rb_fail", "tick_ok", "el_rec")
+# C24, third exploration: a batch whose first register is unmodified fails; the outage ends with a write of a register outside the batch
+EV_OUTSIDE = ("wb_new_ok", "wb_second_fail", "wb_second_ok", "w3_new_ok", "w_new_ok", "rb_fail", "tick_ok")
 # C23, second exploration: a register that is read on its own next to the batch of the other registers
 EV_READS = ("rb_ok", "rb_fail", "r3_ok", "r3_fail", "r_ok", "el_rec", "tick_ok")
 EV_THOROUGH = EV_QUICK + ("r_ok", "r_fail", "w_new_ok", "w_new_fail", "w_same_ok", "el_small", "wb_half_ok", "w_new_partial_fail")
@@ -170,13 +173,17 @@ class Sys:
                 if not f.fail_batch and f.calls > calls0:
                     for r in regs:
                         self.last_read_ok[r.name] = f.inp[r.name]
-            elif ev.startswith("wb_") or ev.startswith("w_"):
+            elif ev.startswith(("wb_", "w_", "w3_")):
                 batch = ev.startswith("wb_")
-                regs = ([RW1] if "_one_" in ev else WRITE_REGS) if batch else [W2]       # wb_new_one_ok: a batch that commands RW1 only
+                regs = ([RW1] if "_one_" in ev else WRITE_REGS) if batch else [W3] if ev.startswith("w3_") else [W2]       # wb_new_one_ok: a batch that commands RW1 only
                 if "_prev_" in ev:
                     prev = getattr(self, "prev_commanded", None) or {}
                     for r in regs:
                         self.commanded[r.name] = prev.get(r.name, self.commanded.get(r.name, self._fresh()))
+                elif "_second_" in ev:
+                    # a cycle in which only the second register of the batch gets a new value (the first one is filtered out as unmodified)
+                    self.commanded.setdefault("RW1", self._fresh())
+                    self.commanded["W2"] = self._fresh()
                 elif "_half_" in ev:
                     # a cycle in which only one register gets a new value
                     self.commanded["RW1"] = self._fresh()
@@ -198,7 +205,7 @@ class Sys:
                 if batch:
                     d.write_batch(vals, regs)
                 else:
-                    d.write(vals[0], W2)
+                    d.write(vals[0], regs[0])
                 rec["vals"] = vals
                 rec["regs"] = [r.name for r in regs]
                 self.last_cycle_full_ok = (not fail and not ev.endswith("_pf"))
@@ -227,7 +234,7 @@ class Sys:
             rec["raised"] = "HardwareLayerException"
         except Exception as e:  # anything else is a defect in its own right
             rec["raised"] = type(e).__name__ + ":" + str(e)[:80]
-        if rec["raised"] and (ev.startswith("wb_") or ev.startswith("w_")):
+        if rec["raised"] and ev.startswith(("wb_", "w_", "w3_")):
             # the decorator refused the write with an exception (Disconnected / Error): the caller knows the value was not
             # taken, so it does not count as commanded
             self.commanded = commanded0
@@ -387,7 +394,7 @@ class Model:
 def event_kind(ev: str, pre_state: str) -> str:
     if ev.startswith(("rb_", "r_", "r3_")):
         return "rw_err" if ev.endswith("fail") else "rw_ok"
-    if ev.startswith(("wb_", "w_")):
+    if ev.startswith(("wb_", "w_", "w3_")):
         return "rw_err" if ev.endswith("fail") else "rw_ok"
     if ev.startswith("el_"):
         return "elapse"
